@@ -211,3 +211,4 @@ def check_row(rep, ctx, rule, key, anchor_body, ctx_adt, variants, request_local
                     ("payload operation(s) at %s can be reached without passing an admission check" % ", ".join(bad[:3])),
                     bad[0] if bad else anchor_body.span)
     return g
+
